@@ -944,7 +944,21 @@ impl HistExec {
                 // (only the files that are input of this run: with a single file as input the
                 // tool shows the bare file name, and other project files are not part of the run)
                 let all_paths: Vec<String> = input_files(&self.version, &self.layout).iter().map(|f| f.path.clone()).collect();
+                // the tool shows `<last component of the source directory>/<relative path>` (the bare
+                // file name when a single file is the input): an exact match on that decides;
+                // otherwise the longest relative path that is a suffix of the location
+                let src_last = {
+                    let n = src_dir_name(&self.layout);
+                    if n == "." { self.root_name.clone() } else { n.rsplit('/').next().unwrap_or("").to_string() }
+                };
+                let single = self.layout.src_file.is_some();
+                let disp = |p: &str| -> String {
+                    if single { Path::new(p).file_name().map(|s| s.to_string_lossy().into_owned()).unwrap_or_default() } else { format!("{src_last}/{p}") }
+                };
                 let named = |loc: &str| -> Option<String> {
+                    if let Some(p) = all_paths.iter().find(|p| disp(p) == loc) {
+                        return Some(p.clone());
+                    }
                     all_paths
                         .iter()
                         .filter(|p| loc == p.as_str() || loc.ends_with(&format!("/{p}")))
